@@ -110,7 +110,21 @@ func (e *CrashEngine) Generate(prop, tier string, seed uint64, run int) *sim.Pla
 			add("fetch", 0)
 		}
 	}
-	fill(add(target, 0))
+	tgt := add(target, 0)
+	fill(tgt)
+	if target == "edit" && r.Chance(0.5) {
+		// a staging area with two authors taking turns is written as several packs under one ref
+		// update: the crash points between the packs are the interesting ones
+		p.Cfg["extra_idents"] = 1
+		for len(tgt.Sub) < 3 {
+			sub := genSub(r, tgt.Id*100+len(tgt.Sub))
+			sub.K, sub.S, sub.L = "comment", "turn "+word(r), nil
+			tgt.Sub = append(tgt.Sub, sub)
+		}
+		for i := range tgt.Sub {
+			tgt.Sub[i].A = []int{0, 7}[i%2]
+		}
+	}
 	return p
 }
 
